@@ -20,7 +20,7 @@ use mc_core::*;
 fn main() {
     let ctx = Ctx::from_args();
     install_panic_hook();
-    watchdog_start(20);
+    watchdog_start(60);
     if let Some(p) = &ctx.replay {
         std::process::exit(replay::replay(&ctx, p));
     }
